@@ -1,3 +1,4 @@
+CONSTANT LargeM = {33, 40, 64, 100}
 CONSTANT MaxM = 12
 SPECIFICATION FairImplSpec
 INVARIANT TypeOK
